@@ -1,19 +1,26 @@
 """C31: k.p models - numerical and analytic derivatives agree.
 
-spec  : KPStencil.tla   - Derivative3D as the one stencil  D f(k)_a = sum_b w_b b_a f(k + b)  on the stencil that
-                          find_shells selects (BShells selection loop, Wannier90 "pair" rule, zero weights dropped), nested for
-                          the 2nd and 3rd derivative; exact rationals on the integer grid (h = 1, homogeneity gives every h)
+spec  : KPStencil.tla   - Derivative3D as the one stencil  D f(k)_a = sum_b w_b b_a f(k + b)  on the stencil that the
+                          Wannier90 shell procedure selects (BShells selection loop, zero weights dropped), nested for the
+                          2nd and 3rd derivative; exact rationals on the integer grid (h = 1, homogeneity gives every h)
         MC_KPStencil    - per catalogue lattice (integer Cartesian basis): the stencil, then every monomial up to degree 4:
                           D1 = d + (1/6) T : d^3 (exact up to degree 2), D2 exact up to degree 3 (+ error law for 4), D3 exact
-        KPStencilRec    - record validation of SystemKP(Ham = integer polynomial).derHam / der2Ham / der3Ham
-bind  : spec -> code : find_shells must return the stencil of every TLC "stencil" state; TLC "deriv" states (monomial, point,
-                       exact values of D1, D2, D3) are replayed on SystemKP with h = 2^-6
+        KPStencilRec    - record validation of SystemKP(Ham = integer polynomial).derHam / der2Ham / der3Ham and of the
+                          stencils find_shells returns
+bind  : what C31 demands of the CODE is scheme independent: the numerical derivatives of a polynomial agree with the analytic
+        ones exactly where every centro-symmetric second-order scheme is exact (derHam: degree <= 2, der2Ham: <= 3,
+        der3Ham: <= 4) and to C h^2 above; for cubic polynomials the first derivative of ANY linear translation-invariant
+        scheme is  analytic + (1/6) T : d^3 f  with T_abcd = derHam_a(x_b x_c x_d)(0), which the harness MEASURES on the
+        system under test.  Which stencil the code selects is informative only.
+        spec -> code : TLC "deriv" states (monomial, point) are replayed on SystemKP with h = 2^-6
         code -> spec : random integer-coefficient Hermitian polynomial Hamiltonians (1-2 bands, degree <= 3), Cartesian and
-                       reduced convention, h = 2^-5..2^-7: derivative values as scaled integers validated by TLC
-        numeric      : Hermiticity, spec error bound, default finite_diff_dk, evaluate_k / run() with and without analytic
-                       derivatives, dependence of find_shells on the length scale
-level : exploration - the specification decides the stencil, its exactness degree and the exact value of every numerical
-        derivative of a polynomial; agreement of calculators is floating point
+                       reduced convention, h = 2^-5..2^-7: derivative values as scaled integers validated by TLC, together
+                       with the stencil the system declares (NegClosed / Functional / CartComplete, its fourth moment)
+        numeric      : Hermiticity, evaluate_k / run() with and without analytic derivatives (cubic box, triclinic lattice,
+                       mixed analytic/numerical derivatives, a smooth non-polynomial Hamiltonian, h^2 scaling), default
+                       finite_diff_dk, hexagonal / irrational lattices, dependence of find_shells on the length scale
+level : exploration - the specification decides the exactness degrees and the error law of the scheme; agreement of
+        calculators is floating point
 """
 import os
 import copy
@@ -26,24 +33,31 @@ import numpy as np
 
 from .. import tlc, ftable
 from ..common import Report, MachineryError, seed, workdir
-from .c22 import rationalise, quiet_call
+from ._fdutil import rationalise, quiet_call, Scratch, Skipped
 
 PROPS = {
     "C31": dict(level="exploration",
-                technique="TLC exhaustive on KPStencil.tla/MC_KPStencil.tla (finite-difference stencil of find_shells + Derivative3D, nested, on all "
-                          "monomials up to degree 4, exact rationals) + replay of TLC states on find_shells / SystemKP + TLC validation "
-                          "(KPStencilRec.tla) of recorded numerical derivatives of integer polynomial Hamiltonians; calculators compared numerically",
-                text="The specification decides: which stencil find_shells selects on cubic, fcc, bcc, tetragonal, orthorhombic, monoclinic and "
-                     "triclinic integer lattices; that Derivative3D differentiates polynomials exactly up to degree 2 with the error "
-                     "(h^2/6) T:d^3 f for cubic and quartic ones, and that the nested second / third derivatives are exact up to degree 3 / 4 and "
-                     "symmetric. The real find_shells, SystemKP.derHam/der2Ham/der3Ham are replayed on the TLC states (h = 2^-6) and recorded for "
-                     "random Hermitian integer polynomials (values as scaled integers, TLC tolerance 1 unit); Hermiticity, the error bound, the "
-                     "default finite_diff_dk, evaluate_k/run() with and without analytic derivatives are compared in floating point.",
-                note="exploration: calculators agree only to O(h^2); the sharp comparison is against the system whose analytic derHam carries the "
-                     "specification's error term, which must agree to rounding",
+                technique="TLC exhaustive on KPStencil.tla/MC_KPStencil.tla (finite-difference stencil of the Wannier90 shell procedure + "
+                          "Derivative3D, nested, on all monomials up to degree 4, exact rationals) + replay of the TLC states on SystemKP + TLC "
+                          "validation (KPStencilRec.tla) of recorded numerical derivatives of integer polynomial Hamiltonians and of the "
+                          "stencils the code declares; calculators compared numerically",
+                text="The specification decides that the stencil scheme differentiates polynomials exactly up to degree 2 with the error "
+                     "(h^2/6) T:d^3 f above, and that the nested second / third derivatives are exact up to degree 3 / 4 and symmetric "
+                     "(cubic, fcc, bcc, orthorhombic, monoclinic, triclinic integer lattices; thorough: also tetragonal). On the real code "
+                     "the TLC states (quick: the cubic lattice and a seeded quarter of the others; thorough: all) are replayed on "
+                     "SystemKP.derHam/der2Ham/der3Ham with h = 2^-6, sharply where every centro-symmetric second-order scheme is exact and "
+                     "against the error term measured on the system under test for cubic monomials, with a C h^2 bound for quartic ones; "
+                     "random Hermitian integer polynomials are recorded (TLC checks the integer-scaled values and the declared stencil); "
+                     "Hermiticity, evaluate_k/run() with, without and with partly analytic derivatives, the h^2 scaling, a smooth "
+                     "Hamiltonian, a triclinic and hexagonal lattice and the default finite_diff_dk are compared in floating point.",
+                note="exploration. One TLC unit of the recorded values is 1/(2^(2q) Dw) for derHam (about the size of the h^2 error term), "
+                     "2^-q/sc for der2Ham and 1/sc for der3Ham (sc = 1 in the Cartesian convention): the TLC clauses on der2Ham/der3Ham are "
+                     "coarse, the sharp comparisons of the recorded calls are the floating-point ones (1e-6 / 1e-5). Which stencil "
+                     "find_shells selects is reported (equals_specification), not required.",
                 ref="DESIGN.md 3.7"),
 }
 
+TLC_WORKERS = int(os.environ.get("VERIF_TLC_WORKERS", "4"))
 SX = np.array([[0, 1], [1, 0]], dtype=complex)
 SY = np.array([[0, -1j], [1j, 0]], dtype=complex)
 SZ = np.array([[1, 0], [0, -1]], dtype=complex)
@@ -108,6 +122,38 @@ class PolyHam:
         return out
 
 
+class SmoothHam:
+    """a smooth non-polynomial two-band Hamiltonian of the Cartesian k with analytic derivatives:
+    H = (cos u) s0 + (sin v) sx + (exp(w) - 1) sy + (1 + z0 z1) sz,  u = a.z, v = b.z, w = c.z"""
+
+    def __init__(self, a, b, c):
+        self.a, self.b, self.c = (np.array(x, dtype=float) for x in (a, b, c))
+        self.nb = 2
+
+    def __call__(self, z):
+        z = np.array(z, dtype=float)
+        return (np.cos(self.a @ z) * S0 + np.sin(self.b @ z) * SX + (np.exp(self.c @ z) - 1) * SY + (1 + z[0] * z[1]) * SZ)
+
+    def der_cart(self, z, order, J=None):
+        z = np.array(z, dtype=float)
+        u, v, w = self.a @ z, self.b @ z, self.c @ z
+        fu = [np.cos(u), -np.sin(u), -np.cos(u), np.sin(u)][order % 4]
+        fv = [np.sin(v), np.cos(v), -np.sin(v), -np.cos(v)][order % 4]
+        fw = np.exp(w)
+        res = np.zeros((2, 2) + (3,) * order, dtype=complex)
+        for cart in itertools.product(range(3), repeat=order):
+            pa = np.prod([self.a[i] for i in cart])
+            pb = np.prod([self.b[i] for i in cart])
+            pc = np.prod([self.c[i] for i in cart])
+            m = fu * pa * S0 + fv * pb * SX + fw * pc * SY
+            if order == 1:
+                m = m + (z[1] if cart[0] == 0 else z[0] if cart[0] == 1 else 0.0) * SZ
+            elif order == 2 and sorted(cart) == [0, 1]:
+                m = m + SZ
+            res[(slice(None), slice(None)) + cart] = m
+        return res
+
+
 def random_hermitian(rng, nb, cmax=3):
     if nb == 1:
         return np.array([[rng.randint(-cmax, cmax)]], dtype=complex)
@@ -134,6 +180,32 @@ def make_system(ham, A, h, red, scale=1.0, **kw):
                       finite_diff_dk=h, **kw)
 
 
+# the ten cubic monomials x_b x_c x_d (b <= c <= d) on the diagonal of one Hamiltonian: derHam at k = 0 is the fourth moment of
+# whatever linear scheme the system uses, T_abcd = D1_a (x_b x_c x_d)(0)
+MONO3 = [(b, c, d) for b in range(3) for c in range(b, 3) for d in range(c, 3)]
+
+
+def _probe_ham(z):
+    return np.diag([z[b] * z[c] * z[d] for (b, c, d) in MONO3]).astype(complex)
+
+
+def measure_T(build):
+    """build(ham) -> a SystemKP on the lattice / step under test whose Ham takes the CARTESIAN k.  Returns the measured
+    T (3,3,3,3) = error tensor of the first derivative on cubic polynomials: D1_a f = d_a f + (1/6) T_abcd d_bcd f"""
+    syst = build(_probe_ham)
+    g = np.array(syst.derHam(np.zeros(3)))
+    T = np.zeros((3, 3, 3, 3))
+    for i, (b, c, d) in enumerate(MONO3):
+        for a in range(3):
+            for perm in set(itertools.permutations((b, c, d))):
+                T[(a,) + perm] = g[i, i, a].real
+    return T
+
+
+def frac(w):
+    return Fraction(w[0], w[1])
+
+
 def t4_of(cart_stencil):
     """T_abcd = sum w b_a b_b b_c b_d (float) from a list of (b, w)"""
     T = np.zeros((3, 3, 3, 3))
@@ -141,10 +213,6 @@ def t4_of(cart_stencil):
         b = np.array(b, dtype=float)
         T += float(w) * np.einsum("a,b,c,d->abcd", b, b, b, b)
     return T
-
-
-def frac(w):
-    return Fraction(w[0], w[1])
 
 
 MC_INV = ["Admits", "StencilProps", "D1Law", "D1Exact", "D1Grouping", "D2Law", "D2Exact", "D2Symmetric", "D3Exact", "D3Symmetric"]
@@ -156,8 +224,8 @@ def mc_cfg(lats, dmax, ksn, d3max, d3cmax, invariants=MC_INV):
             + "".join(f"INVARIANT {i}\n" for i in invariants) + "CHECK_DEADLOCK FALSE\n")
 
 
-def run_mc(name, cfg, dump=True, workers=16):
-    st = tlc.run_tlc("MC_KPStencil.tla", cfg, name, workers=workers, dump=dump, coverage=False, timeout=3000)
+def run_mc(name, cfg, dump=True):
+    st = tlc.run_tlc("MC_KPStencil.tla", cfg, name, workers=TLC_WORKERS, dump=dump, coverage=False, timeout=3000)
     if st.get("timeout"):
         raise MachineryError(f"TLC timed out on {name}")
     if st.get("error") and not st.get("violation"):
@@ -165,24 +233,85 @@ def run_mc(name, cfg, dump=True, workers=16):
     return st
 
 
+def _analytic(e, dirs, x):
+    e = list(e)
+    c = 1
+    for a in dirs:
+        c *= e[a]
+        e[a] -= 1
+        if e[a] < 0:
+            return 0
+    return c * x[0] ** e[0] * x[1] ** e[1] * x[2] ** e[2]
+
+
+def find_shells_adapter(skipped):
+    """the private find_shells (module name with a dunder prefix) or None"""
+    try:
+        import importlib
+        fdm = importlib.import_module("wannierberri.system.__finite_differences")
+        fn = getattr(fdm, "find_shells")
+    except Exception as ex:  # noqa
+        skipped.add("find_shells", ex)
+        return None
+    return fn
+
+
+def declared_stencil(syst, A, h, find_shells, skipped):
+    """(lattice-unit rational weights, integer mesh vectors) of the stencil the system uses, read from its attributes or from
+    find_shells; None when neither is available or the stencil is not of that form (then the record carries no stencil)"""
+    wk, bkr = getattr(syst, "wk", None), getattr(syst, "bk_red", None)
+    try:
+        if wk is None or bkr is None:
+            if find_shells is None:
+                raise AttributeError("SystemKP.wk / bk_red and find_shells are not available")
+            wk, bki = quiet_call(find_shells, np.array(A, dtype=float) * h)
+            bkr = np.array(bki) * h
+        wk = np.array(wk, dtype=float) * h * h
+        bkr = np.array(bkr, dtype=float)
+        nst = np.rint(bkr / h).astype(int)
+        wst = [rationalise(w) for w in wk]
+        if any(w is None for w in wst) or np.abs(nst * h - bkr).max() > 1e-12 or len(wst) != len(nst):
+            skipped.add("declared_stencil_not_rational")
+            return None
+        return wst, nst
+    except Exception as ex:  # noqa
+        skipped.add("declared_stencil", ex)
+        return None
+
+
 # ----------------------------------------------------------------------------------------------- the check
 def check(pid, tier):
     rep = Report(pid, tier, "exploration")
+    scratch = Scratch(pid)
+    try:
+        return _check(rep, tier, scratch)
+    except Exception:
+        if rep.violations:
+            rep.finish()
+        raise
+    finally:
+        scratch.cleanup()
+
+
+def _check(rep, tier, scratch):
     thorough = tier == "thorough"
     rng = random.Random(seed() * 7919 + 31)
-    import importlib
-    fdm = importlib.import_module("wannierberri.system.__finite_differences")
-    rep.rule("TLC enumerates (lattice, monomial of degree <= 4, grid point); a case = one TLC state replayed on find_shells / SystemKP, one "
-             "recorded SystemKP derivative evaluation validated by TLC, or one floating-point comparison of two systems; distinct by inputs")
+    skipped = Skipped()
+    find_shells = find_shells_adapter(skipped)
+    rep.rule("TLC enumerates (lattice, monomial of degree <= 4, grid point); a case = one TLC state replayed on SystemKP, one "
+             "recorded SystemKP derivative evaluation or find_shells stencil validated by TLC, or one floating-point comparison of two "
+             "systems; distinct by inputs")
     rep.assume("exact cases use recip_lattice = integer matrix, finite_diff_dk = 2^-q and k = h * integer vector, so every sampled "
                "point and polynomial value is exactly representable; k-points stay at least 3 stencil steps inside the box [-1/2, 1/2)")
+    rep.assume("the numerical first derivative is a linear, translation-invariant combination of values of Ham (any stencil): its error on "
+               "cubic polynomials is then (1/6) T : d^3 f with T measured on the system under test")
 
     # ---------------- spec
     if thorough:
         lats, ksn, d3max, d3cmax = ["cubic", "fcc", "bcc", "tetra2", "ortho", "mono", "tri"], 2, 4, 12
     else:
         lats, ksn, d3max, d3cmax = ["cubic", "fcc", "bcc", "ortho", "mono", "tri"], 1, 3, 8
-    st = run_mc("c31_stencil", mc_cfg(lats, 4, ksn, d3max, d3cmax))
+    st = run_mc(scratch.name("c31_stencil"), mc_cfg(lats, 4, ksn, d3max, d3cmax))
     ftable.spec_violation(rep, st, "c31_stencil")
     rep.add_tlc("c31_stencil", st)
     stencils = {}
@@ -192,6 +321,8 @@ def check(pid, tier):
             stencils[s["lat"]] = s
         elif s["pc"] == "deriv":
             derivs.append(s)
+    # the dump order depends on the scheduling of the TLC workers: fix it before anything is drawn from it
+    derivs.sort(key=lambda s: (s["lat"], tuple(s["e"]), tuple(s["x"])))
     if set(stencils) != set(lats):
         raise MachineryError(f"stencil states missing: {set(lats) - set(stencils)}")
     bydeg = {}
@@ -208,35 +339,62 @@ def check(pid, tier):
     rep.part("c31_stencil", states_by_degree=bydeg, states_with_third_derivative=n_d3, cubic_monomials_with_nonzero_error=n_err,
              stencils={lat: dict(vectors=len(s["C"]), weights=sorted({f"{w[0]}/{w[1]}" for _, w in s["C"]})) for lat, s in stencils.items()})
     # sensitivity: "exact for cubic polynomials" must be refuted by TLC
-    st0 = run_mc("c31_wrong", mc_cfg(["cubic", "bcc"], 3, 1, 0, 0, invariants=["D1ExactCubicWRONG"]), dump=False)
+    st0 = run_mc(scratch.name("c31_wrong"), mc_cfg(["cubic", "bcc"], 3, 1, 0, 0, invariants=["D1ExactCubicWRONG"]), dump=False)
     if not st0.get("violation") or st0["violation"][1] != "D1ExactCubicWRONG":
         raise MachineryError("sensitivity self-test failed: D1ExactCubicWRONG should be violated")
     rep.part("c31_wrong", sensitivity_violation=st0["violation"][1])
 
-    # ---------------- spec -> code: find_shells returns the stencil of the specification
     H6 = 2.0 ** -6
     cat = {}
     for lat, s in stencils.items():
-        exp = frozenset((tuple(n), tuple(w)) for n, w in s["nsten"])
-        A = [list(r) for r in s["basis"]]
-        cat[lat] = dict(A=A, nsten=exp, C=[(tuple(b), frac(w)) for b, w in s["C"]], T=t4_of([(b, frac(w)) for b, w in s["C"]]))
-        for h in (1.0, H6):
-            rep.case(("find_shells", lat, h))
-            try:
-                wk, bki = quiet_call(fdm.find_shells, np.array(A, dtype=float) * h)
-            except Exception as ex:  # noqa
-                rep.violation("find_shells:raises", dict(lattice=lat, basis=(np.array(A) * h).tolist(), error=repr(ex)[:200]))
-                continue
-            got = set()
-            okr = True
-            for w, n in zip(wk, bki):
-                r = rationalise(w * h * h)
-                okr = okr and r is not None
-                got.add((tuple(int(x) for x in n), r))
-            if not okr or frozenset(got) != exp:
-                rep.violation("find_shells:stencil", dict(lattice=lat, basis=(np.array(A) * h).tolist(), expected=sorted(exp),
-                                                           got=sorted((n, [float(x) for x in wk][0]) for n, _ in got)))
-        rep.sample(dict(fn="find_shells", lattice=lat, basis=[list(r) for r in A], stencil=sorted(exp)[:4], n=len(exp)))
+        cat[lat] = dict(A=[list(r) for r in s["basis"]], nsten=frozenset((tuple(n), tuple(w)) for n, w in s["nsten"]),
+                        T_spec=t4_of([(tuple(b), frac(w)) for b, w in s["C"]]))
+
+    recs, meta = [], []      # records for TLC: stencils of find_shells first, derivative evaluations later
+
+    # ---------------- find_shells: ANY stencil that is closed under b -> -b, has one weight per vector and is complete is valid
+    fs_rows = []
+    if find_shells is not None:
+        for lat in sorted(cat):
+            A = cat[lat]["A"]
+            for h in (1.0, H6):
+                rep.case(("find_shells", lat, h))
+                try:
+                    wk, bki = quiet_call(find_shells, np.array(A, dtype=float) * h)
+                    wk, bki = np.array(wk, dtype=float), np.array(bki)
+                    if bki.ndim != 2 or bki.shape[1] != 3 or wk.shape != (len(bki),):
+                        raise TypeError(f"unexpected shapes {wk.shape} {bki.shape}")
+                except (TypeError, AttributeError) as ex:
+                    skipped.add("find_shells", ex)
+                    continue
+                except Exception as ex:  # noqa
+                    rep.violation("raises:find_shells:" + type(ex).__name__, dict(lattice=lat, basis=(np.array(A) * h).tolist(), error=repr(ex)[:200]))
+                    continue
+                bc = bki @ (np.array(A, dtype=float) * h)
+                comp = float(np.abs(np.einsum("b,ba,bc->ac", wk, bc, bc) - np.eye(3)).max())
+                wst = [rationalise(w * h * h) for w in wk]
+                row = dict(lattice=lat, h=h, vectors=len(wk), completeness_dev=comp)
+                if comp > 1e-8:
+                    rep.violation("find_shells:incomplete", dict(lattice=lat, basis=(np.array(A) * h).tolist(), deviation=comp))
+                if all(w is not None for w in wst) and np.all(bki == np.rint(bki)):
+                    got = frozenset((tuple(int(x) for x in n), w) for w, n in zip(wst, bki))
+                    row["equals_specification"] = got == cat[lat]["nsten"]
+                    recs.append(dict(fn="find_shells", A=[[int(x) for x in r] for r in A], q=0, red=False, nst=[[int(x) for x in n] for n in bki],
+                                     wst=[list(w) for w in wst], nu=[0, 0, 0], polys=[], sc=[1, 1, 1], v1=[], v2=[], v3=[], tol=[1, 1, 1]))
+                    meta.append(dict(fn="find_shells", lattice=lat, basis=(np.array(A) * h).tolist()))
+                fs_rows.append(row)
+            rep.sample(dict(fn="find_shells", lattice=lat, basis=[list(r) for r in A], specification_stencil=sorted(cat[lat]["nsten"])[:4],
+                            n=len(cat[lat]["nsten"])))
+    rep.part("find_shells", rows=fs_rows, note="equals_specification is informative: C31 does not prescribe which complete stencil is used")
+
+    # ---------------- the error tensor of the scheme under test, measured per (lattice, step)
+    Tcache = {}
+
+    def T_of(lat, h):
+        if (lat, h) not in Tcache:
+            A = np.array(cat[lat]["A"], dtype=float)
+            Tcache[(lat, h)] = measure_T(lambda ham: make_system(ham, A, h, red=False))
+        return Tcache[(lat, h)]
 
     # ---------------- spec -> code: replay of TLC derivative states on SystemKP (h = 2^-6)
     M2 = 1 * S0 + 2 * SX - 1 * SY + 3 * SZ
@@ -244,54 +402,76 @@ def check(pid, tier):
     worst = dict(d1=0.0, d2=0.0, d3=0.0, herm=0.0)
     TOL_REPLAY = 1e-6
     nrepl = 0
+    nspec = dict(equal=0, differ=0)
     for s in sel:
         lat, e, x = s["lat"], tuple(s["e"]), np.array(s["x"], dtype=float)
         A = np.array(cat[lat]["A"], dtype=float)
         nb = 1 + (sum(e) + s["x"][0]) % 2
         ham = PolyHam([((M2 if nb == 2 else np.array([[1]])), e)])
-        syst = make_system(ham, A, H6, red=False)
-        kred = (H6 * x) @ np.linalg.inv(A)
         d = sum(e)
         nrepl += 1
         rep.case(("replay", lat, e, tuple(s["x"])), nontrivial=d > 0)
+        info = dict(lattice=lat, recip_lattice=A.tolist(), monomial=e, x=s["x"], h=H6)
+        try:
+            syst = make_system(ham, A, H6, red=False)
+            kred = (H6 * x) @ np.linalg.inv(A)
+            got1, got2, got3 = np.array(syst.derHam(kred)), np.array(syst.der2Ham(kred)), np.array(syst.der3Ham(kred))
+            T = T_of(lat, H6)
+        except Exception as ex:  # noqa
+            rep.violation("raises:SystemKP:" + type(ex).__name__, dict(info, error=repr(ex)[:300]))
+            continue
         mat = ham.terms[0][0]
-        got1 = syst.derHam(kred)
-        exp1 = np.array([float(frac(s["d1"][a])) for a in range(3)]) * H6 ** (d - 1)
-        dev = np.abs(got1 - mat[:, :, None] * exp1[None, None, :]).max()
-        worst["d1"] = max(worst["d1"], dev)
-        if dev > TOL_REPLAY * max(1.0, np.abs(exp1).max()):
-            rep.violation("SystemKP.derHam:replay", dict(lattice=lat, monomial=e, x=s["x"], h=H6, expected=exp1.tolist(), got=got1[0, 0].real.tolist(), deviation=dev))
-        got2 = syst.der2Ham(kred)
-        exp2 = np.array([[float(frac(s["d2"][(a + 1, b + 1)])) for b in range(3)] for a in range(3)]) * H6 ** (d - 2)
-        dev = np.abs(got2 - mat[:, :, None, None] * exp2[None, None]).max()
-        worst["d2"] = max(worst["d2"], dev)
-        if dev > TOL_REPLAY * max(1.0, np.abs(exp2).max()):
-            rep.violation("SystemKP.der2Ham:replay", dict(lattice=lat, monomial=e, x=s["x"], h=H6, expected=exp2.tolist(), got=got2[0, 0].real.tolist(), deviation=dev))
-        herm = [np.abs(got1 - np.conj(np.swapaxes(got1, 0, 1))).max(), np.abs(got2 - np.conj(np.swapaxes(got2, 0, 1))).max()]
-        if s["d3"]:
-            got3 = syst.der3Ham(kred)
-            herm.append(np.abs(got3 - np.conj(np.swapaxes(got3, 0, 1))).max())
-            for (a, b, c), v in s["d3"].items():
-                ev = float(frac(v)) * H6 ** (d - 3)
-                for perm in set(itertools.permutations((a - 1, b - 1, c - 1))):
-                    dev = np.abs(got3[(slice(None), slice(None)) + perm] - mat * ev).max()
-                    worst["d3"] = max(worst["d3"], dev)
-                    if dev > TOL_REPLAY * max(1.0, abs(ev)):
-                        rep.violation("SystemKP.der3Ham:replay", dict(lattice=lat, monomial=e, x=s["x"], h=H6, index=perm, expected=ev,
-                                                                      got=complex(got3[(0, 0) + perm]).real, deviation=dev))
-        worst["herm"] = max(worst["herm"], max(herm))
-        if max(herm) > 1e-9:
-            rep.violation("SystemKP:hermiticity", dict(lattice=lat, monomial=e, x=s["x"], deviation=max(herm)))
+        z = H6 * x
+        an = [None,
+              np.array([_analytic(e, (a,), z) for a in range(3)], dtype=float),
+              np.array([[_analytic(e, (a, b), z) for b in range(3)] for a in range(3)], dtype=float),
+              np.array([[[_analytic(e, (a, b, c), z) for c in range(3)] for b in range(3)] for a in range(3)], dtype=float),
+              np.array([[[[_analytic(e, (a, b, c, f), z) for f in range(3)] for c in range(3)] for b in range(3)] for a in range(3)], dtype=float)]
+        tmax = float(np.abs(T).max())
+        # first derivative: exact (degree <= 2), analytic + measured error term (degree 3), C h^2 bound (degree 4)
+        exp1 = an[1] + (np.einsum("abcd,bcd->a", T, an[3]) / 6.0 if d == 3 else 0.0)
+        dev = float(np.abs(got1 - mat[:, :, None] * exp1[None, None, :]).max()) / float(np.abs(mat).max())
+        if d <= 3:
+            worst["d1"] = max(worst["d1"], dev)
+            if dev > TOL_REPLAY * max(1.0, np.abs(exp1).max()):
+                rep.violation("SystemKP.derHam:replay", dict(info, expected=exp1.tolist(), got=got1[0, 0].real.tolist(), deviation=dev,
+                                                             what="exact up to degree 2, analytic + (1/6) T:d^3 f (T measured) for degree 3"))
+        elif dev > 3 * tmax * float(np.abs(an[3]).sum()) + TOL_REPLAY:
+            rep.violation("SystemKP.derHam:bound", dict(info, expected=an[1].tolist(), got=got1[0, 0].real.tolist(), deviation=dev,
+                                                        bound=3 * tmax * float(np.abs(an[3]).sum())))
+        # second derivative: exact up to degree 3, C h^2 bound for degree 4
+        dev = float(np.abs(got2 - mat[:, :, None, None] * an[2][None, None]).max()) / float(np.abs(mat).max())
+        if d <= 3:
+            worst["d2"] = max(worst["d2"], dev)
+            if dev > TOL_REPLAY * max(1.0, np.abs(an[2]).max()):
+                rep.violation("SystemKP.der2Ham:replay", dict(info, expected=an[2].tolist(), got=got2[0, 0].real.tolist(), deviation=dev))
+        elif dev > 3 * tmax * float(np.abs(an[4]).sum()) + TOL_REPLAY:
+            rep.violation("SystemKP.der2Ham:bound", dict(info, expected=an[2].tolist(), got=got2[0, 0].real.tolist(), deviation=dev,
+                                                         bound=3 * tmax * float(np.abs(an[4]).sum())))
+        # third derivative: exact up to degree 4
+        dev = float(np.abs(got3 - mat[:, :, None, None, None] * an[3][None, None]).max()) / float(np.abs(mat).max())
+        worst["d3"] = max(worst["d3"], dev)
+        if dev > TOL_REPLAY * max(1.0, np.abs(an[3]).max()):
+            rep.violation("SystemKP.der3Ham:replay", dict(info, expected=an[3].tolist(), got=got3[0, 0].real.tolist(), deviation=dev))
+        herm = max(np.abs(g - np.conj(np.swapaxes(g, 0, 1))).max() for g in (got1, got2, got3))
+        worst["herm"] = max(worst["herm"], herm)
+        if herm > 1e-9:
+            rep.violation("SystemKP:hermiticity", dict(info, deviation=herm))
+        # informative: the value TLC computed for the specification's stencil (includes its h^2 error term)
+        spec1 = np.array([float(frac(s["d1"][a])) for a in range(3)]) * H6 ** (d - 1)
+        same = np.abs(got1 - mat[:, :, None] * spec1[None, None, :]).max() <= TOL_REPLAY * max(1.0, np.abs(spec1).max())
+        nspec["equal" if same else "differ"] += 1
         if nrepl <= 2:
             rep.sample(dict(fn="SystemKP.derHam", lattice=lat, monomial=e, x=s["x"], h=H6, expected=exp1.tolist()))
-    rep.part("replay", states=nrepl, worst_deviation=worst, tolerance=TOL_REPLAY,
-             note="deviation from the exact value computed by TLC (which includes the h^2 error term)")
+    rep.part("replay", states=nrepl, worst_deviation=worst, tolerance=TOL_REPLAY, derHam_equals_value_of_specification_stencil=nspec,
+             note="sharp where every centro-symmetric second-order scheme is exact (derHam degree <= 2, der2Ham <= 3, der3Ham <= 4) and, "
+                  "for cubic monomials, against analytic + (1/6) T:d^3 f with T measured on the system; quartic: |error| <= 3 max|T| sum|d^n f|")
 
     # ---------------- code -> spec: recorded derivatives of random polynomial Hamiltonians, validated by TLC
     nrec = 200 if thorough else 48
-    recs, meta = [], []
-    worst_rec = dict(d1=0.0, d2=0.0, d3=0.0, herm=0.0, bound_excess=0.0)
-    rec_lats = [l for l in cat]
+    worst_rec = dict(d1=0.0, d2=0.0, d3=0.0, herm=0.0)
+    rec_lats = sorted(cat)
+    nder = 0
     for ir in range(nrec):
         lat = rec_lats[ir % len(rec_lats)]
         A = np.array(cat[lat]["A"], dtype=float)
@@ -302,45 +482,46 @@ def check(pid, tier):
         nb = rng.choice([1, 2])
         ham = random_poly(rng, nb, rng.choice([1, 2, 3, 3]), rng.randint(2, 5))
         nu = [rng.randint(-3, 3) for _ in range(3)]
-        syst = make_system(ham, A, h, red=red)
         kred = h * np.array(nu, dtype=float)
         z0 = kred if red else kred @ A
         J = Ainv if red else np.eye(3)     # J[a, i] = d z_i / d x_a
-        wk = syst.wk * h * h
-        nst = np.rint(syst.bk_red / h).astype(int)
-        wst = [rationalise(w) for w in wk]
+        info = dict(lattice=lat, recip_lattice=A.tolist(), finite_diff_dk=h, k_vector_cartesian=not red, k_red=kred.tolist(),
+                    terms=[(C.tolist(), e) for C, e in ham.terms])
         rep.case(("record", lat, q, red, tuple(nu), ir))
-        if any(w is None for w in wst) or np.abs(nst * h - syst.bk_red).max() > 1e-12:
-            rep.violation("SystemKP:stencil_not_rational", dict(lattice=lat, h=h, wk=[float(w) for w in syst.wk]))
+        try:
+            syst = make_system(ham, A, h, red=red)
+            g1, g2, g3 = np.array(syst.derHam(kred)), np.array(syst.der2Ham(kred)), np.array(syst.der3Ham(kred))
+            T = T_of(lat, h)
+        except Exception as ex:  # noqa
+            rep.violation("raises:SystemKP:" + type(ex).__name__, dict(info, error=repr(ex)[:300]))
             continue
-        dw = 1
-        for w in wst:
-            dw = dw * w[1] // np.gcd(dw, w[1])
-        deta = int(round(abs(np.linalg.det(A))))
-        sc = [int(dw), deta ** 2 if red else 1, deta ** 3 if red else 1]
-        g1, g2, g3 = syst.derHam(kred), syst.der2Ham(kred), syst.der3Ham(kred)
         a1, a2, a3 = ham.der_cart(z0, 1, J), ham.der_cart(z0, 2, J), ham.der_cart(z0, 3, J)
-        # numeric: Hermiticity; second and third derivative exact; first derivative = analytic + (h^2/6) T : d^3 f
+        # numeric: Hermiticity; second and third derivative exact; first derivative = analytic + (1/6) T : d^3 f (T measured)
         hm = max(np.abs(g - np.conj(np.swapaxes(g, 0, 1))).max() for g in (g1, g2, g3))
-        T = cat[lat]["T"] * h * h
         e1 = np.einsum("abcd,ijbcd->ija", T, a3) / 6.0
         dev1 = np.abs(g1 - a1 - e1).max()
         dev2 = np.abs(g2 - a2).max()
         dev3 = np.abs(g3 - a3).max()
         worst_rec.update(d1=max(worst_rec["d1"], dev1), d2=max(worst_rec["d2"], dev2), d3=max(worst_rec["d3"], dev3), herm=max(worst_rec["herm"], hm))
-        info = dict(lattice=lat, recip_lattice=A.tolist(), finite_diff_dk=h, k_vector_cartesian=not red, k_red=kred.tolist(),
-                    terms=[(C.tolist(), e) for C, e in ham.terms])
         if hm > 1e-9:
             rep.violation("SystemKP:hermiticity", dict(info, deviation=hm))
         if dev1 > 1e-6:
-            rep.violation("SystemKP.derHam:error_term", dict(info, deviation=dev1, what="derHam differs from analytic + (h^2/6) T:d^3 f"))
-        bound = np.abs(e1).max() + 1e-6
+            rep.violation("SystemKP.derHam:error_term", dict(info, deviation=dev1, what="derHam differs from analytic + (1/6) T:d^3 f (T measured "
+                                                                                       "on the same lattice and step with the ten cubic monomials)"))
+        bound = 3 * float(np.abs(T).max()) * float(np.abs(a3).sum()) + 1e-6
         if np.abs(g1 - a1).max() > bound:
             rep.violation("SystemKP.derHam:bound", dict(info, deviation=float(np.abs(g1 - a1).max()), bound=float(bound)))
         if dev2 > 1e-6:
             rep.violation("SystemKP.der2Ham:exactness", dict(info, deviation=dev2))
         if dev3 > 1e-5:
             rep.violation("SystemKP.der3Ham:exactness", dict(info, deviation=dev3))
+        sten = declared_stencil(syst, A, h, find_shells, skipped)
+        dw = 1
+        if sten is not None:
+            for w in sten[0]:
+                dw = dw * w[1] // np.gcd(dw, w[1])
+        deta = int(round(abs(np.linalg.det(A))))
+        sc = [int(dw), deta ** 2 if red else 1, deta ** 3 if red else 1]
         polys = ham.scalar_polys()
         rng.shuffle(polys)
         polys = [p for p in polys if p[3]][:2]
@@ -355,94 +536,126 @@ def check(pid, tier):
             v1.append([int(round(x)) for x in f1])
             v2.append([int(round(x)) for x in f2])
             v3.append([int(round(x)) for x in f3])
-        if big > 2 ** 28 or not polys:
+        if big > 2 ** 28 or not polys or not np.all(np.isfinite([big])):
             continue
-        recs.append(dict(A=[[int(x) for x in r] for r in A], q=q, red=bool(red), nst=[[int(x) for x in n] for n in nst],
-                         wst=[list(w) for w in wst], nu=nu, polys=[p[3] for p in polys], sc=sc, v1=v1, v2=v2, v3=v3, tol=[1, 1, 1]))
+        rec = dict(fn="SystemKP", A=[[int(x) for x in r] for r in A], q=q, red=bool(red), nu=nu, polys=[p[3] for p in polys], sc=sc,
+                   v1=v1, v2=v2, v3=v3, tol=[1, 1, 1])
+        if sten is not None:
+            rec.update(nst=[[int(x) for x in n] for n in sten[1]], wst=[list(w) for w in sten[0]])
+            t4 = T / (h * h) * sc[0]
+            if np.abs(t4).max() < 2 ** 28:
+                rec["T4"] = [int(round(x)) for x in t4.reshape(-1)]
+        recs.append(rec)
         meta.append(info)
-    if len(recs) < nrec // 2:
-        raise MachineryError(f"only {len(recs)} of {nrec} records usable")
-    stv, bad = ftable.validate_records("KPStencilRec.tla", ftable.REC_CFG, recs, "c31", timeout=3000, chunk=200)
-    rep.add_tlc("c31_records", stv)
-    rep.add_traces(len(recs))
-    for i, clauses in sorted(bad.items()):
-        for c in clauses:
-            rep.violation("SystemKP:record:" + c, dict(meta[i], failing_clauses=clauses, record={k: recs[i][k] for k in ("q", "red", "nu", "polys", "sc", "v1")}))
-    rep.part("records", n=len(recs), reduced_convention=sum(r["red"] for r in recs), worst_deviation=worst_rec,
+        nder += 1
+    if nder < nrec // 2:
+        if rep.violations:
+            rep.part("records", usable=nder)
+        else:
+            raise MachineryError(f"only {nder} of {nrec} records usable")
+    if recs:
+        stv, bad = ftable.validate_records("KPStencilRec.tla", ftable.REC_CFG, recs, scratch.name("c31"), timeout=3000, chunk=200)
+        rep.add_tlc("c31_records", stv)
+        rep.add_traces(len(recs))
+        for i, clauses in sorted(bad.items()):
+            for c in clauses:
+                rep.violation(recs[i]["fn"] + ":record:" + c, dict(meta[i], failing_clauses=clauses,
+                                                                     record={k: recs[i][k] for k in ("q", "red", "nu", "polys", "sc", "v1") if k in recs[i]}))
+    rep.part("records", n=len(recs), derivative_records=nder, with_declared_stencil=sum("nst" in r for r in recs),
+             with_measured_T4=sum("T4" in r for r in recs), reduced_convention=sum(r["red"] for r in recs), worst_deviation=worst_rec,
              tolerances=dict(tlc_integer_units=1, float=1e-6),
-             note="one TLC unit is 1/(2^(2q) Dw) for derHam (Dw = lcm of the weight denominators), 2^-q for der2Ham, 1 for der3Ham")
-    rep.sample({k: recs[0][k] for k in ("A", "q", "red", "nu", "polys", "sc", "v1")})
-    # binding self-test
-    c1 = copy.deepcopy(recs[0])
-    c1["v1"][0][0] += 3
-    c2 = copy.deepcopy(recs[0])
-    c2["v2"][0][4] += 2
-    c3 = copy.deepcopy(recs[0])
-    c3["wst"][0] = [c3["wst"][0][0] * 2, c3["wst"][0][1]]
-    _, b2 = ftable.validate_records("KPStencilRec.tla", ftable.REC_CFG, [c1, c2, c3, recs[0]], "c31_selftest")
-    for j, cl in {0: "d1", 1: "d2", 2: "stencil_props"}.items():
-        if cl not in b2.get(j, []):
-            raise MachineryError(f"binding self-test failed: corrupted record {j} not rejected by clause {cl}: {b2.get(j)}")
-    if 3 in b2:
-        raise MachineryError(f"binding self-test failed: uncorrupted record rejected: {b2[3]}")
-    rep.part("binding_selftest", corrupted_records_rejected={str(k): v for k, v in b2.items()})
+             note="one TLC unit is 1/(2^(2q) Dw) for derHam (Dw = lcm of the weight denominators), 2^-q/sc for der2Ham, 1/sc for der3Ham "
+                  "(sc = 1 Cartesian, det^2 / det^3 reduced): the sharp comparisons are the floating-point ones")
+    full = [r for r in recs if r["fn"] == "SystemKP" and "nst" in r and "T4" in r]
+    if full:
+        rep.sample({k: full[0][k] for k in ("A", "q", "red", "nu", "polys", "sc", "v1")})
+        # binding self-test
+        c1 = copy.deepcopy(full[0])
+        c1["v1"][0][0] += 3
+        c2 = copy.deepcopy(full[0])
+        c2["v2"][0][4] += 2
+        c3 = copy.deepcopy(full[0])
+        c3["wst"][0] = [c3["wst"][0][0] * 2, c3["wst"][0][1]]
+        c4 = copy.deepcopy(full[0])
+        c4["T4"][0] += 5
+        _, b2 = ftable.validate_records("KPStencilRec.tla", ftable.REC_CFG, [c1, c2, c3, c4, full[0]], scratch.name("c31_selftest"))
+        for j, cl in {0: "d1", 1: "d2", 2: "stencil_props", 3: "t4_of_stencil"}.items():
+            if cl not in b2.get(j, []):
+                raise MachineryError(f"binding self-test failed: corrupted record {j} not rejected by clause {cl}: {b2.get(j)}")
+        if 4 in b2:
+            raise MachineryError(f"binding self-test failed: uncorrupted record rejected: {b2[4]}")
+        rep.part("binding_selftest", corrupted_records_rejected={str(k): v for k, v in b2.items()})
+    else:
+        skipped.add("binding_selftest_needs_declared_stencil")
 
     # ---------------- numeric only: calculators with and without analytic derivatives, conventions, default dk, length scale
-    _numeric_parts(rep, rng, cat, thorough, fdm)
+    _numeric_parts(rep, rng, cat, thorough, find_shells, skipped, scratch)
+    skipped.report(rep)
     return rep.finish()
 
 
-def _analytic(e, dirs, x):
-    e = list(e)
-    c = 1
-    for a in dirs:
-        c *= e[a]
-        e[a] -= 1
-        if e[a] < 0:
-            return 0
-    return c * x[0] ** e[0] * x[1] ** e[1] * x[2] ** e[2]
-
-
-def _numeric_parts(rep, rng, cat, thorough, fdm):
+def _numeric_parts(rep, rng, cat, thorough, find_shells, skipped, scratch):
     import wannierberri as wb
     from wannierberri.system.system_kp import SystemKP
     from wannierberri import calculators as calc
 
-    # --- (1) evaluate_k: Ham only  vs  analytic derivatives + the specification's error term (must agree to rounding)
-    #         and vs the purely analytic derivatives (exact for quadratic Hamiltonians, O(h^2) for cubic ones)
-    calcs = lambda: dict(energy=calc.tabulate.Energy(), velocity=calc.tabulate.Velocity(), berry=calc.tabulate.BerryCurvature(),
-                         invmass=calc.tabulate.InvMass(), derberry=calc.tabulate.DerBerryCurvature(), der3E=calc.tabulate.Der3E())
-    worst = dict(pred=0.0, quad=0.0, cubic=0.0)
+    # --- (1) evaluate_k: Ham only  vs  analytic derivatives + the measured error term (must agree to rounding), vs systems where
+    #         only derHam (or derHam and der2Ham) is analytic and the rest numerical, and vs the purely analytic derivatives
+    #         (exact for quadratic Hamiltonians, O(h^2) with ratio 4 between h and h/2 for cubic / smooth ones)
+    def calcs():
+        return dict(energy=calc.tabulate.Energy(), velocity=calc.tabulate.Velocity(), berry=calc.tabulate.BerryCurvature(),
+                    invmass=calc.tabulate.InvMass(), derberry=calc.tabulate.DerBerryCurvature(), der3E=calc.tabulate.Der3E())
+    worst = dict(pred=0.0, quad=0.0, cubic=0.0, mixed=0.0, smooth=0.0)
     ratios = []
     ncmp = 0
-    ncases = 6 if thorough else 3
     TOLP = 1e-5
-    for ic in range(ncases):
-        red = ic % 3 == 2
+    tri = np.array(cat["tri"]["A"], dtype=float) if "tri" in cat else np.array([[2, 0, 0], [1, 2, 0], [1, 1, 3]], dtype=float)
+    cases = [dict(kind="box", deg=3, red=False), dict(kind="box", deg=2, red=False), dict(kind="box", deg=3, red=True),
+             dict(kind="tri", deg=3, red=False), dict(kind="smooth", deg=None, red=False)]
+    if thorough:
+        cases += [dict(kind="box", deg=2, red=False), dict(kind="box", deg=3, red=False), dict(kind="box", deg=2, red=True),
+                  dict(kind="tri", deg=3, red=True), dict(kind="tri", deg=2, red=False), dict(kind="smooth", deg=None, red=False)]
+    for ic, case in enumerate(cases):
+        red, deg, kind = case["red"], case["deg"], case["kind"]
         kmax = rng.choice([1.0, 0.5, 2.0])
-        R = np.eye(3) * 2 * kmax
+        R = np.eye(3) * 2 * kmax if kind != "tri" else tri
+        lsc = float(np.linalg.norm(R, 2))
         J = np.linalg.inv(R) if red else np.eye(3)
-        deg = 3 if ic % 2 == 0 else 2
-        while True:
-            ham = random_poly(rng, 2, deg, 5)
-            if deg == 3 and not any(max(e) == 3 for C, e in ham.terms):
-                # a pure cube, so that the finite-difference error term (T_aaaa d_aaa H on a cubic lattice) is not zero
-                ham = PolyHam([(C, e) for C, e in ham.terms] + [(SX + 2 * SZ, rng.choice([(3, 0, 0), (0, 3, 0), (0, 0, 3)]))])
-            if sum(1 for C, e in ham.terms if abs(C[0, 1]) > 0 or abs(C[0, 0] - C[1, 1]) > 0) >= 2:
-                break
-        q = 9
+        q = 9 if kind != "smooth" else 7
         h = 2.0 ** -q
-        T = t4_of([(tuple(2 * kmax * np.array(n)), Fraction(1, 2) / (2 * kmax) ** 2) for n in
-                   [(1, 0, 0), (-1, 0, 0), (0, 1, 0), (0, -1, 0), (0, 0, 1), (0, 0, -1)]]) * h * h
+        if kind == "smooth":
+            ham = SmoothHam([rng.choice([0.5, 1.0, 1.5]), rng.choice([-0.5, 0.5]), 0.25], [0.5, rng.choice([1.0, -1.0]), 0.5],
+                            [rng.choice([0.25, -0.25]), 0.5, rng.choice([0.75, 0.5])])
+            desc = dict(smooth=dict(a=ham.a.tolist(), b=ham.b.tolist(), c=ham.c.tolist()))
+        else:
+            while True:
+                ham = random_poly(rng, 2, deg, 5)
+                if deg == 3 and not any(max(e) == 3 for C, e in ham.terms):
+                    # a pure cube, so that the finite-difference error term (T_aaaa d_aaa H on a cubic lattice) is not zero
+                    ham = PolyHam([(C, e) for C, e in ham.terms] + [(SX + 2 * SZ, rng.choice([(3, 0, 0), (0, 3, 0), (0, 0, 3)]))])
+                if sum(1 for C, e in ham.terms if abs(C[0, 1]) > 0 or abs(C[0, 0] - C[1, 1]) > 0) >= 2:
+                    break
+            desc = dict(terms=[(C.tolist(), e) for C, e in ham.terms])
+
+        def mk(hh=h, **kw):
+            if kind == "tri":
+                return quiet_call(SystemKP, ham, kmax=None, recip_lattice=R, k_vector_cartesian=not red, finite_diff_dk=hh, **kw)
+            return quiet_call(SystemKP, ham, kmax=kmax, k_vector_cartesian=not red, finite_diff_dk=hh, **kw)
+        base = dict(case=kind, degree=deg, kmax=kmax, recip_lattice=R.tolist(), k_vector_cartesian=not red, finite_diff_dk=h, **desc)
         d1 = lambda z: ham.der_cart(np.array(z, dtype=float), 1, J)
         d2 = lambda z: ham.der_cart(np.array(z, dtype=float), 2, J)
         d3 = lambda z: ham.der_cart(np.array(z, dtype=float), 3, J)
-        d1p = lambda z: d1(z) + np.einsum("abcd,ijbcd->ija", T, d3(z)) / 6.0
-        mk = lambda **kw: quiet_call(SystemKP, ham, kmax=kmax, k_vector_cartesian=not red, finite_diff_dk=h, **kw)
-        s_fd = mk()
-        s_pred = mk(derHam=d1p, der2Ham=d2, der3Ham=d3)
-        s_ana = mk(derHam=d1, der2Ham=d2, der3Ham=d3)
-        s_fd2 = quiet_call(SystemKP, ham, kmax=kmax, k_vector_cartesian=not red, finite_diff_dk=h / 2)
+        try:
+            T = measure_T(lambda pham: quiet_call(SystemKP, pham, kmax=None, recip_lattice=R, k_vector_cartesian=True, finite_diff_dk=h))
+            d1p = lambda z: d1(z) + np.einsum("abcd,ijbcd->ija", T, d3(z)) / 6.0
+            systems = dict(fd=mk(), ana=mk(derHam=d1, der2Ham=d2, der3Ham=d3), fd2=mk(hh=h / 2))
+            if kind != "smooth":
+                systems.update(pred=mk(derHam=d1p, der2Ham=d2, der3Ham=d3))
+                # mixed modes: the missing derivatives are finite differences of the ANALYTIC lower one, exact for degree <= 3
+                systems.update(mix1=mk(derHam=d1), mix2=mk(derHam=d1, der2Ham=d2))
+        except Exception as ex:  # noqa
+            rep.violation("raises:SystemKP:" + type(ex).__name__, dict(base, error=repr(ex)[:300]))
+            continue
         done = 0
         for _ in range(40):
             if done >= 2:
@@ -453,125 +666,175 @@ def _numeric_parts(rep, rng, cat, thorough, fdm):
             if nbgap(E) < 0.3:
                 continue
             rr = {}
-            for nm, ss in (("fd", s_fd), ("pred", s_pred), ("ana", s_ana), ("fd2", s_fd2)):
-                r = quiet_call(wb.evaluate_k, ss, k=k, calculators=calcs())
-                rr[nm] = {kk: np.array(v.data) for kk, v in r.items()}
+            try:
+                for nm, ss in systems.items():
+                    r = quiet_call(wb.evaluate_k, ss, k=k, calculators=calcs())
+                    rr[nm] = {kk: np.array(v.data) for kk, v in r.items()}
+            except Exception as ex:  # noqa
+                rep.violation("raises:evaluate_k:" + type(ex).__name__, dict(base, k_red=k.tolist(), error=repr(ex)[:300]))
+                break
             rep.case(("evaluate_k", ic, tuple(k)))
             ncmp += 1
             done += 1
             for kk in rr["fd"]:
                 scale = max(1.0, np.abs(rr["ana"][kk]).max())
-                dp = np.abs(rr["fd"][kk] - rr["pred"][kk]).max() / scale
                 da = np.abs(rr["fd"][kk] - rr["ana"][kk]).max() / scale
                 da2 = np.abs(rr["fd2"][kk] - rr["ana"][kk]).max() / scale
-                worst["pred"] = max(worst["pred"], dp)
-                info = dict(calculator=kk, kmax=kmax, k_vector_cartesian=not red, finite_diff_dk=h, k_red=k.tolist(),
-                            terms=[(C.tolist(), e) for C, e in ham.terms])
-                if dp > TOLP:
-                    rep.violation("evaluate_k:fd_vs_predicted:" + kk, dict(info, deviation=dp, what="Ham-only system differs from the system with "
-                                  "analytic derivatives + the specification's finite-difference error term"))
-                if deg <= 2:
+                info = dict(base, calculator=kk, k_red=k.tolist())
+                if "pred" in rr:
+                    dp = np.abs(rr["fd"][kk] - rr["pred"][kk]).max() / scale
+                    worst["pred"] = max(worst["pred"], dp)
+                    if dp > TOLP:
+                        rep.violation("evaluate_k:fd_vs_predicted:" + kk, dict(info, deviation=dp, what="Ham-only system differs from the system with "
+                                      "analytic derivatives + the finite-difference error term measured on the same lattice"))
+                    for mm in ("mix1", "mix2"):
+                        dm = np.abs(rr[mm][kk] - rr["ana"][kk]).max() / scale
+                        worst["mixed"] = max(worst["mixed"], dm)
+                        if dm > TOLP:
+                            rep.violation(f"evaluate_k:{mm}_vs_analytic:" + kk,
+                                          dict(info, deviation=dm, what="system with analytic derHam" + (" and der2Ham" if mm == "mix2" else "") +
+                                               " and numerical higher derivatives differs from the fully analytic one (exact for degree <= 3)"))
+                if deg is not None and deg <= 2:
                     worst["quad"] = max(worst["quad"], da)
                     if da > TOLP:
                         rep.violation("evaluate_k:fd_vs_analytic_quadratic:" + kk, dict(info, deviation=da))
                 else:
-                    worst["cubic"] = max(worst["cubic"], da)
+                    nm = "cubic" if deg is not None else "smooth"
+                    worst[nm] = max(worst[nm], da)
+                    # to finite-difference accuracy: O(h^2) with a constant of the size of the (dimensionless) step squared ...
+                    cbound = 1000 * h * h * max(1.0, lsc * lsc)
+                    if da > cbound:
+                        rep.violation("evaluate_k:fd_vs_analytic:bound:" + kk, dict(info, deviation=da, bound=cbound))
+                    # ... and halving the step divides the deviation by 4
                     if da > 1e-6 and da2 > 1e-7:
                         ratios.append(da / da2)
-                    if da > 0.5:
-                        rep.violation("evaluate_k:fd_vs_analytic_cubic:" + kk, dict(info, deviation=da))
-    if ncmp < ncases or worst["cubic"] == 0.0:
-        raise MachineryError("no evaluate_k comparison was made (all k-points on degeneracies?)")
-    rep.part("numeric_only_evaluate_k", worst_relative_deviation=worst, tolerance_sharp=TOLP, tolerance_cubic=0.5,
-             h2_scaling_ratios=dict(n=len(ratios), min=min(ratios) if ratios else None, max=max(ratios) if ratios else None),
-             note="calculators: Energy, Velocity, BerryCurvature, InvMass, DerBerryCurvature, Der3E; 'pred' = analytic derivatives + (h^2/6) T:d^3 H")
+                        if not 3.0 < da / da2 < 5.0:
+                            rep.violation("evaluate_k:h2_scaling:" + kk, dict(info, deviation_h=da, deviation_half_h=da2, ratio=da / da2))
+    if not rep.violations and (ncmp < len(cases) or worst["cubic"] == 0.0 or not ratios):
+        raise MachineryError("no evaluate_k comparison was made (all k-points on degeneracies?) or no h^2 ratio could be formed")
+    rep.part("numeric_only_evaluate_k", worst_relative_deviation=worst, tolerance_sharp=TOLP, bound="1000 h^2 max(1, |recip_lattice|^2)",
+             h2_scaling_ratios=dict(n=len(ratios), min=min(ratios) if ratios else None, max=max(ratios) if ratios else None, required="3 < r < 5"),
+             cases=[c["kind"] + ("/red" if c["red"] else "") + (f"/deg{c['deg']}" if c["deg"] else "") for c in cases],
+             note="calculators: Energy, Velocity, BerryCurvature, InvMass, DerBerryCurvature, Der3E; 'pred' = analytic derivatives + (h^2/6) T:d^3 H "
+                  "with T measured; mix1 / mix2 = analytic derHam (and der2Ham), numerical rest")
 
     # --- (2) run(): integrated quantities on a grid, Ham only vs predicted vs analytic
     ham = PolyHam([(1 * S0, (2, 0, 0)), (2 * S0, (0, 2, 0)), (1 * S0, (0, 0, 2)), (SX, (1, 0, 0)), (SY, (0, 1, 0)), (SZ, (0, 0, 1)),
                    (SZ, (1, 1, 1)), (2 * SZ, (0, 0, 0)), (SX, (0, 2, 1)), (SY, (3, 0, 0)), (SX, (0, 0, 3))])
     kmax, h = 1.0, 2.0 ** -7
-    T = t4_of([(tuple(2 * kmax * np.array(n)), Fraction(1, 8)) for n in [(1, 0, 0), (-1, 0, 0), (0, 1, 0), (0, -1, 0), (0, 0, 1), (0, 0, -1)]]) * h * h
     J = np.eye(3)
     d1 = lambda z: ham.der_cart(np.array(z, dtype=float), 1, J)
     d2 = lambda z: ham.der_cart(np.array(z, dtype=float), 2, J)
     d3 = lambda z: ham.der_cart(np.array(z, dtype=float), 3, J)
-    d1p = lambda z: d1(z) + np.einsum("abcd,ijbcd->ija", T, d3(z)) / 6.0
-    systems = dict(fd=quiet_call(SystemKP, ham, kmax=kmax, finite_diff_dk=h),
-                   pred=quiet_call(SystemKP, ham, kmax=kmax, finite_diff_dk=h, derHam=d1p, der2Ham=d2, der3Ham=d3),
-                   ana=quiet_call(SystemKP, ham, kmax=kmax, finite_diff_dk=h, derHam=d1, der2Ham=d2, der3Ham=d3))
-    Ef = np.array([-1.0, 0.5, 2.0])
-    wdir = workdir("c31_run")
-    res = {}
-    for nm, ss in systems.items():
-        grid = quiet_call(wb.Grid, ss, NK=3, NKFFT=1)   # odd: no k-point on the boundary of the box, where the model is discontinuous
-        cc = dict(ahc=calc.static.AHC(Efermi=Ef), ohmic=calc.static.Ohmic_FermiSea(Efermi=Ef), dos=calc.static.DOS(Efermi=Ef),
-                  bdip=calc.static.BerryDipole_FermiSea(Efermi=Ef))
-        r = quiet_call(wb.run, ss, grid=grid, calculators=cc, adpt_num_iter=0, parallel=False, use_irred_kpt=False, symmetrize=False,
-                       print_progress_step_time=1000, fout_name=os.path.join(wdir, "res"), restart=False, print_Kpoints=False)
-        res[nm] = {kk: np.array(v.data) for kk, v in r.results.items()}
-        rep.case(("run", nm))
-    wr = dict(pred=0.0, ana=0.0)
-    for kk in res["fd"]:
-        scale = max(1e-3, np.abs(res["ana"][kk]).max())
-        dp = np.abs(res["fd"][kk] - res["pred"][kk]).max() / scale
-        da = np.abs(res["fd"][kk] - res["ana"][kk]).max() / scale
-        wr["pred"] = max(wr["pred"], dp)
-        wr["ana"] = max(wr["ana"], da)
-        if dp > 1e-5:
-            rep.violation("run:fd_vs_predicted:" + kk, dict(deviation=dp, calculator=kk, kmax=kmax, finite_diff_dk=h))
-        if da > 0.05:
-            rep.violation("run:fd_vs_analytic:" + kk, dict(deviation=da, calculator=kk, kmax=kmax, finite_diff_dk=h))
-    shutil.rmtree(wdir, ignore_errors=True)
-    rep.part("numeric_only_run", worst_relative_deviation=wr, tolerance_sharp=1e-5, tolerance_analytic=0.05,
-             calculators=["AHC", "Ohmic_FermiSea", "DOS", "BerryDipole_FermiSea"], grid="NK=3, NKFFT=1")
+    wdir = workdir(scratch.name("c31_run"))
+    try:
+        T = measure_T(lambda pham: quiet_call(SystemKP, pham, kmax=kmax, finite_diff_dk=h))
+        d1p = lambda z: d1(z) + np.einsum("abcd,ijbcd->ija", T, d3(z)) / 6.0
+        systems = dict(fd=quiet_call(SystemKP, ham, kmax=kmax, finite_diff_dk=h),
+                       pred=quiet_call(SystemKP, ham, kmax=kmax, finite_diff_dk=h, derHam=d1p, der2Ham=d2, der3Ham=d3),
+                       ana=quiet_call(SystemKP, ham, kmax=kmax, finite_diff_dk=h, derHam=d1, der2Ham=d2, der3Ham=d3))
+        Ef = np.array([-1.0, 0.5, 2.0])
+        res = {}
+        for nm, ss in systems.items():
+            grid = quiet_call(wb.Grid, ss, NK=3, NKFFT=1)   # odd: no k-point on the boundary of the box, where the model is discontinuous
+            cc = dict(ahc=calc.static.AHC(Efermi=Ef), ohmic=calc.static.Ohmic_FermiSea(Efermi=Ef), dos=calc.static.DOS(Efermi=Ef),
+                      bdip=calc.static.BerryDipole_FermiSea(Efermi=Ef))
+            r = quiet_call(wb.run, ss, grid=grid, calculators=cc, adpt_num_iter=0, parallel=False, use_irred_kpt=False, symmetrize=False,
+                           fout_name=os.path.join(wdir, "res"))
+            res[nm] = {kk: np.array(v.data) for kk, v in r.results.items()}
+            rep.case(("run", nm))
+        wr = dict(pred=0.0, ana=0.0)
+        for kk in res["fd"]:
+            scale = max(1e-3, np.abs(res["ana"][kk]).max())
+            dp = np.abs(res["fd"][kk] - res["pred"][kk]).max() / scale
+            da = np.abs(res["fd"][kk] - res["ana"][kk]).max() / scale
+            wr["pred"] = max(wr["pred"], dp)
+            wr["ana"] = max(wr["ana"], da)
+            if dp > 1e-5:
+                rep.violation("run:fd_vs_predicted:" + kk, dict(deviation=dp, calculator=kk, kmax=kmax, finite_diff_dk=h))
+            if da > 0.05:
+                rep.violation("run:fd_vs_analytic:" + kk, dict(deviation=da, calculator=kk, kmax=kmax, finite_diff_dk=h))
+        rep.part("numeric_only_run", worst_relative_deviation=wr, tolerance_sharp=1e-5, tolerance_analytic=0.05,
+                 calculators=["AHC", "Ohmic_FermiSea", "DOS", "BerryDipole_FermiSea"], grid="NK=3, NKFFT=1")
+    except Exception as ex:  # noqa
+        if isinstance(ex, (MachineryError, OSError, ImportError)):
+            raise
+        import traceback
+        rep.violation("raises:run:" + type(ex).__name__, dict(error=repr(ex)[:300], kmax=kmax, finite_diff_dk=h,
+                                                              traceback=traceback.format_exc()[-1500:]))
+    finally:
+        shutil.rmtree(wdir, ignore_errors=True)
 
-    # --- (3) default finite_diff_dk = 1e-4 (not exactly representable): derivative accuracy against analytic + error term
+    # --- (3) default finite_diff_dk (not exactly representable) and lattices without an integer basis (hexagonal, c/a = sqrt 2):
+    #         derivative accuracy against analytic + the measured error term
     wd = dict(d1=0.0, d2=0.0, d3=0.0)
-    for ic in range(4 if thorough else 2):
-        kmax = [1.0, 2.0, 1.5, 1.0][ic]
+    hexl = np.array([[1.0, 0.0, 0.0], [-0.5, np.sqrt(3) / 2, 0.0], [0.0, 0.0, np.sqrt(1.5)]])
+    hex60 = np.array([[1.0, 0.0, 0.0], [0.5, np.sqrt(3) / 2, 0.0], [0.0, 0.0, np.sqrt(2.5)]])
+    tets2 = np.diag([1.0, 1.0, np.sqrt(2.0)])
+    setups = [dict(name="default_dk", kw=dict(kmax=1.0), R=np.eye(3) * 2.0, tol=(1e-7, 1e-3, 2.0)),
+              dict(name="default_dk", kw=dict(kmax=2.0), R=np.eye(3) * 4.0, tol=(1e-7, 1e-3, 2.0)),
+              dict(name="hex", kw=dict(kmax=None, recip_lattice=hexl, finite_diff_dk=2.0 ** -6), R=hexl, tol=(1e-7, 1e-6, 1e-5)),
+              dict(name="hex60", kw=dict(kmax=None, recip_lattice=hex60 * 1.5, finite_diff_dk=2.0 ** -7), R=hex60 * 1.5, tol=(1e-7, 1e-6, 1e-5)),
+              dict(name="tetraS2", kw=dict(kmax=None, recip_lattice=tets2, finite_diff_dk=2.0 ** -6), R=tets2, tol=(1e-7, 1e-6, 1e-5))]
+    if thorough:
+        setups += [dict(name="default_dk", kw=dict(kmax=1.5), R=np.eye(3) * 3.0, tol=(1e-7, 1e-3, 2.0)),
+                   dict(name="hex", kw=dict(kmax=None, recip_lattice=hexl * 0.75, finite_diff_dk=2.0 ** -5, k_vector_cartesian=False), R=hexl * 0.75,
+                        tol=(1e-7, 1e-6, 1e-5), red=True)]
+    rows = []
+    for su in setups:
         ham = random_poly(rng, 2, 3, 5)
-        ss = quiet_call(SystemKP, ham, kmax=kmax)
-        R = np.eye(3) * 2 * kmax
-        hh = 1e-4 * 2 * kmax
-        nvec = np.rint(ss.bk_red / 1e-4).astype(int)
-        if len(ss.wk) != 6:
-            continue
-        T = t4_of([(tuple(n * hh), w) for n, w in zip(nvec, ss.wk)])
+        R = su["R"]
+        redc = su.get("red", False)
         k = np.array([0.11, -0.07, 0.05])
-        z = k @ R
-        a1, a2, a3 = (ham.der_cart(z, o, np.eye(3)) for o in (1, 2, 3))
-        e1 = np.einsum("abcd,ijbcd->ija", T, a3) / 6.0
-        dv = [np.abs(ss.derHam(k) - a1 - e1).max(), np.abs(ss.der2Ham(k) - a2).max(), np.abs(ss.der3Ham(k) - a3).max()]
-        rep.case(("default_dk", kmax, ic))
-        for nm, v, tol in zip(("d1", "d2", "d3"), dv, (1e-7, 1e-3, 2.0)):
-            wd[nm] = max(wd[nm], v)
-            if v > tol:
-                rep.violation("SystemKP:default_dk:" + nm, dict(kmax=kmax, deviation=v, tolerance=tol, terms=[(C.tolist(), e) for C, e in ham.terms]))
-    rep.part("numeric_only_default_dk", worst_deviation=wd, tolerances=dict(d1=1e-7, d2=1e-3, d3=2.0),
-             note="rounding noise grows like eps/h^n: the third derivative with h = 1e-4 is only accurate to ~1e-5..1e-4 relative")
-
-    # --- (4) the stencil must not depend on the length scale (the specification's selection is scale free)
-    scale_rows = []
-    for lat in ("cubic", "bcc", "mono"):
-        if lat not in cat:
+        z = k if redc else k @ R
+        Jc = np.linalg.inv(R) if redc else np.eye(3)
+        rep.case(("irrational_setup", su["name"], float(R[2, 2])))
+        info = dict(setup=su["name"], recip_lattice=R.tolist(), terms=[(C.tolist(), e) for C, e in ham.terms],
+                    options={kk: (v.tolist() if isinstance(v, np.ndarray) else v) for kk, v in su["kw"].items()})
+        try:
+            ss = quiet_call(SystemKP, ham, **su["kw"])
+            kwp = dict(su["kw"])
+            kwp["k_vector_cartesian"] = True
+            T = measure_T(lambda pham: quiet_call(SystemKP, pham, **kwp))
+            g = [np.array(ss.derHam(k)), np.array(ss.der2Ham(k)), np.array(ss.der3Ham(k))]
+        except Exception as ex:  # noqa
+            rep.violation("raises:SystemKP:" + type(ex).__name__, dict(info, error=repr(ex)[:300]))
             continue
-        A = np.array(cat[lat]["A"], dtype=float)
-        for sc in (1.0, 1e-2, 1e-3, 3e-4, 1e-4, 3e-5, 1e-5):
-            rep.case(("find_shells_scale", lat, sc))
-            try:
-                wk, bki = quiet_call(fdm.find_shells, A * sc)
-                got = frozenset((tuple(int(x) for x in n), rationalise(w * sc * sc)) for w, n in zip(wk, bki))
-                same = got == cat[lat]["nsten"]
-                comp = float(np.abs(np.einsum("b,ba,bc->ac", wk, bki @ (A * sc), bki @ (A * sc)) - np.eye(3)).max())
-                scale_rows.append(dict(lattice=lat, scale=sc, vectors=len(wk), equals_spec=same, completeness_dev=comp))
-                if comp > 1e-8:
-                    rep.violation("find_shells:incomplete", dict(lattice=lat, basis=(A * sc).tolist(), deviation=comp))
-            except Exception as ex:  # noqa
-                scale_rows.append(dict(lattice=lat, scale=sc, raised=repr(ex)[:80]))
-                rep.violation("find_shells:length_scale",
-                              dict(what="find_shells fails on a small basis (absolute thresholds 1e-7 on the singular values of the shell matrices): "
-                                        "SystemKP cannot be constructed with finite_diff_dk * |recip_lattice| < ~1e-4, e.g. kmax = 0.05 with the default "
-                                        "finite_diff_dk = 1e-4, although the stencil is scale free", lattice=lat, basis=(A * sc).tolist(), error=repr(ex)[:200]))
+        a1, a2, a3 = (ham.der_cart(z, o, Jc) for o in (1, 2, 3))
+        e1 = np.einsum("abcd,ijbcd->ija", T, a3) / 6.0
+        dv = [np.abs(g[0] - a1 - e1).max(), np.abs(g[1] - a2).max(), np.abs(g[2] - a3).max()]
+        rows.append(dict(setup=su["name"], deviations=[float(x) for x in dv]))
+        for nm, v, tol in zip(("d1", "d2", "d3"), dv, su["tol"]):
+            if su["name"] == "default_dk":
+                wd[nm] = max(wd[nm], v)
+            if v > tol:
+                rep.violation(f"SystemKP:{su['name']}:{nm}", dict(info, deviation=float(v), tolerance=tol))
+    rep.part("numeric_only_default_dk_and_irrational_lattices", rows=rows, worst_deviation_default_dk=wd,
+             tolerances=dict(default_dk=(1e-7, 1e-3, 2.0), irrational=(1e-7, 1e-6, 1e-5)),
+             note="rounding noise grows like eps/h^n: the third derivative with the default h = 1e-4 is only accurate to ~1e-5..1e-4 relative")
+
+    # --- (4) the stencil must not depend on the length scale: a complete stencil must be found for every scale of the basis
+    scale_rows = []
+    if find_shells is not None:
+        for lat in ("cubic", "bcc", "mono"):
+            if lat not in cat:
+                continue
+            A = np.array(cat[lat]["A"], dtype=float)
+            for sc in (1.0, 1e-2, 1e-3, 3e-4, 1e-4, 3e-5, 1e-5):
+                rep.case(("find_shells_scale", lat, sc))
+                try:
+                    wk, bki = quiet_call(find_shells, A * sc)
+                    wk, bki = np.array(wk, dtype=float), np.array(bki)
+                    comp = float(np.abs(np.einsum("b,ba,bc->ac", wk, bki @ (A * sc), bki @ (A * sc)) - np.eye(3)).max())
+                    scale_rows.append(dict(lattice=lat, scale=sc, vectors=len(wk), completeness_dev=comp))
+                    if comp > 1e-8:
+                        rep.violation("find_shells:incomplete", dict(lattice=lat, basis=(A * sc).tolist(), deviation=comp))
+                except Exception as ex:  # noqa
+                    scale_rows.append(dict(lattice=lat, scale=sc, raised=repr(ex)[:80]))
+                    rep.violation("find_shells:length_scale",
+                                  dict(what="find_shells fails on a small basis although the stencil is scale free (regression of the repaired "
+                                            "absolute-threshold defect: SystemKP could not be constructed with finite_diff_dk * |recip_lattice| < ~1e-4)",
+                                       lattice=lat, basis=(A * sc).tolist(), error=repr(ex)[:200]))
     for kmax in (0.05, 0.02):
         rep.case(("SystemKP_small_kmax", kmax))
         try:
